@@ -398,7 +398,7 @@ def run(tier):
     # ---- MC on the tiny layout
     tiny_file = os.path.join(sc, "c11-tiny.json")
     json.dump([tiny_layout()], open(tiny_file, "w"))
-    mc = tlc.mc("C11", "RegFile", "RegFileMC.cfg", env={"LAYOUT_FILE": tiny_file, "MC_LEVEL": 3 if tier == "quick" else 4, "MENU": "small" if tier == "quick" else "full"}, heap="8g",
+    mc = tlc.mc("C11", "RegFile", "RegFileMC.cfg", env={"LAYOUT_FILE": tiny_file, "MC_LEVEL": 3, "MENU": "small" if tier == "quick" else "full"}, heap="8g", timeout=1800,
                 require_actions=("DoSetReg", "DoSetRegTooBig", "DoSetField", "DoSetFieldTooBig", "DoSetFieldEnum", "DoSetFieldUnknownEnum",
                                  "DoReset", "ResetAll", "ExportParse", "ConfigRoundTrip", "Query"))
     v.add_mc(mc)
